@@ -100,6 +100,16 @@ class Closure:
         self.env = env
 
 
+class _SoftFrame:
+    """wrapper marking a call whose receiver class is only guessed from a parameter name: mismatches are not definite"""
+
+    def __init__(self, inner):
+        self.inner = inner
+
+    def __getattr__(self, name):
+        return getattr(self.inner, name)
+
+
 class Frame:
     def __init__(self, fi: FunctionInfo, depth: int, ctx: str, record: bool):
         self.fi = fi
@@ -160,6 +170,10 @@ class Interp:
     # ================================================================ declared signatures
     def declared_param(self, fi: FunctionInfo, pname: str) -> Optional[K]:
         if fi.cls is not None and fi.cls.name in T.CONTAINERS and fi.parent is None:
+            if fi.name.startswith("_") and not fi.name.startswith("__") and fi.name not in T.PRIVATE_DECLARED:
+                # a private helper: its parameter names carry no documented meaning (a `node_metadata` argument may be a
+                # list of pairs); it is analysed with the kinds of the actual arguments of its callers
+                return None
             return T.param_kind(fi.cls.name, fi.name, pname)
         if fi.cls is None and fi.parent is None and fi.name in T.HELPER_PARAMS:
             return T.HELPER_PARAMS[fi.name].get(pname)
@@ -183,7 +197,9 @@ class Interp:
             if not isinstance(k, _Top):
                 return k
         if arg.arg in T.DUCK_NAMES:
-            return Obj("Hypergraph")
+            # a guess from the parameter's name: calls on it are resolved against Hypergraph, but a call that does
+            # not fit Hypergraph's signature is `unknown`, not a mismatch (the object may be another container)
+            return Obj("Hypergraph", ("DUCK",))
         if arg.arg in T.CLIENT_PARAM_BY_NAME and fi.cls is None and not fi.module.name.startswith(T.CLIENT_NAME_EXCLUDED_PREFIXES):
             return T.CLIENT_PARAM_BY_NAME[arg.arg]
         return TOP
@@ -276,6 +292,10 @@ class Interp:
 
     # ================================================================ sites
     def site(self, fr: Frame, rule: str, node: ast.AST, detail: str, verdict, expr_text: Optional[str] = None):
+        if isinstance(fr, _SoftFrame):
+            if isinstance(verdict, Mismatch):
+                verdict = UNKNOWN
+            fr = fr.inner
         if not fr.record:
             return
         v = "ok" if verdict is OK else ("unknown" if verdict is UNKNOWN else "mismatch")
@@ -1067,7 +1087,12 @@ class Interp:
         return bound
 
     def call_repo(self, fi: FunctionInfo, node, args, kwargs, star_kw, env, fr, recv=None, is_ctor=False) -> K:
+        guessed = isinstance(recv, Obj) and recv.extra == ("DUCK",) and not is_ctor
+        if guessed:
+            fr = _SoftFrame(fr)
         bound = self.bind(fi, node, args, kwargs, star_kw, fr)
+        if guessed:
+            fr = fr.inner
         if bound is None:
             return TOP
         if fr.record:
@@ -1092,7 +1117,7 @@ class Interp:
                         v = fits(ak, dk)
                         if only_none(deconst(ak)) and name in defaults:
                             v = OK
-                        self.site(fr, "K-ARG", node, f"{fi.short}({name}=)", v, norm(node))
+                        self.site(_SoftFrame(fr) if guessed else fr, "K-ARG", node, f"{fi.short}({name}=)", v, norm(node))
                     if isinstance(ak, Const) and (ak.value is None or isinstance(ak.value, bool)):
                         consts[name] = ak
                 elif name in defaults:
